@@ -245,9 +245,9 @@ information for a cycle that executes nothing) -/
 def ExecPost5 (app : App) (s : State) (a : Arch) (s2 : State) (P : Prop) : EuOut → Prop
   | .err => ∃ c, stepArch dc app a = .halt .err c
   | .ret => (∃ c, stepArch dc app a = .halt .ret c) ∧ Back s2.base a ∧ s2.base.writeBus = s.base.writeBus
-  | .none => (Back s2.base a ∧ NormalOk5 app s2 a ∧ P) ∨
+  | .none => (Back s2.base a ∧ NormalOk5 app s2 a ∧ P ∧ s2.base.executed = s.base.executed) ∨
       (∃ a' c, stepArch dc app a = .next a' c ∧ Back s2.base a' ∧ NormalOk5 app s2 a' ∧
-        s2.base.eu.processing = false ∧ s2.base.eu.pendingMemoryRead = false)
+        s2.base.eu.processing = false ∧ s2.base.eu.pendingMemoryRead = false ∧ s2.base.executed = s.base.executed + 1)
   | .flush pc => ∃ a' c, stepArch dc app a = .next a' c ∧ a'.pc = pc ∧ Back s2.base a' ∧
       s2.base.eu.pendingMemoryRead = false ∧ s2.base.eu.memory = none
 
@@ -299,7 +299,7 @@ theorem euStep5_sim {app : App} {s : State} {a : Arch} {eu : ExecUnit} {r : Runn
     injection h with h
     simp only [Prod.mk.injEq] at h
     obtain ⟨rfl, rfl⟩ := h
-    refine ⟨rfl, rfl, rfl, rfl, fun _ => ⟨rfl, rfl, rfl, Or.inl ⟨rfl, Or.inl rfl⟩⟩, Or.inl ⟨hb.with_eu_bu _ _ hsid, ?_, fun _ => ⟨rfl, rfl, rfl, hproc, Or.inl ⟨hpe, rfl, by omega⟩⟩⟩⟩
+    refine ⟨rfl, rfl, rfl, rfl, fun _ => ⟨rfl, rfl, rfl, Or.inl ⟨rfl, Or.inl rfl⟩⟩, Or.inl ⟨hb.with_eu_bu _ _ hsid, ?_, fun _ => ⟨rfl, rfl, rfl, hproc, Or.inl ⟨hpe, rfl, by omega⟩⟩, rfl⟩⟩
     refine hn.transfer ?_ rfl rfl hn.complete (fun _ => ⟨r', hrun⟩) (fun hx => by rw [hproc] at hx; cases hx)
       (fun hx => by rw [hpe] at hx; cases hx) (fun _ => hm)
     rw [hR']; exact runners_busy hproc hrun
@@ -314,6 +314,8 @@ theorem euStep5_sim {app : App} {s : State} {a : Arch} {eu : ExecUnit} {r : Runn
         -- an unconditional jump
         have hE : s.base.executeBus.inside = [] ∧ s.duPending = true :=
           hn.jumpLast [] r' s.base.executeBus.inside hR' hj
+        have hexec := euIssue5_exec h
+        have hproc' : ({ eu with remainingCycles := eu.remainingCycles - 1, runner := some r' } : ExecUnit).processing = true := hproc
         obtain ⟨hfj, hcase⟩ := euIssue_jump_sim (eu := { eu with remainingCycles := eu.remainingCycles - 1, runner := some r' })
           hb hsid hpc hi hnf hca hok hj h
         refine ⟨hfj.wu, hfj.mode, hfj.cycles, hfj.l1i, ?_, ?_⟩
@@ -324,7 +326,11 @@ theorem euStep5_sim {app : App} {s : State} {a : Arch} {eu : ExecUnit} {r : Runn
           · exact absurd rfl hne
           · exact Or.inr ⟨a', c, r'.pc, hst, hapc.symm, hbt⟩
         rcases hcase with ⟨rfl, hb2, heu2, hd2, hw2, hc2, hp2, hne, _, _⟩ | ⟨rfl, herr⟩ | ⟨a', c, hst, hb2, hapc, htc2, hd2, hcomp2, heu2, hout, _⟩
-        · refine Or.inl ⟨hb2, ?_, fun _ => ⟨hw2, hc2, hp2, by rw [heu2]; exact hproc, Or.inr (Or.inl ⟨by rw [heu2]; exact hpe, by rw [heu2], h0', hne⟩)⟩⟩
+        · have hex0 : s2.base.executed = s.base.executed := by
+            rcases hexec with ⟨e1, _⟩ | ⟨_, e2⟩
+            · exact e1
+            · have := e2 rfl; rw [heu2] at this; simp only at this; rw [hproc] at this; cases this
+          refine Or.inl ⟨hb2, ?_, fun _ => ⟨hw2, hc2, hp2, by rw [heu2]; exact hproc, Or.inr (Or.inl ⟨by rw [heu2]; exact hpe, by rw [heu2], h0', hne⟩)⟩, hex0⟩
           refine hn.transfer ?_ ?_ hd2 (hfj.complete hn.complete) (fun _ => ⟨r', by rw [heu2]⟩)
             (fun hx => by rw [heu2] at hx; simp only at hx; rw [hproc] at hx; cases hx)
             (fun hx => by rw [heu2] at hx; simp only at hx; rw [hpe] at hx; cases hx)
@@ -351,7 +357,11 @@ theorem euStep5_sim {app : App} {s : State} {a : Arch} {eu : ExecUnit} {r : Runn
               euRunner := fun hx => (by rw [hproc2] at hx; cases hx), idle := fun _ => hpe2,
               pend := fun hx => (by rw [hpe2] at hx; cases hx), nomem := fun _ => hmem2 }
           rcases hout with rfl | rfl
-          · exact Or.inr ⟨a', c, hst, hb2, hn2, hproc2, hpe2⟩
+          · have hex1 : s2.base.executed = s.base.executed + 1 := by
+              rcases hexec with ⟨_, e1, _⟩ | ⟨e2, _⟩
+              · rw [hproc2, hproc'] at e1; cases e1
+              · exact e2
+            exact Or.inr ⟨a', c, hst, hb2, hn2, hproc2, hpe2, hex1⟩
           · exact ⟨a', c, hst, rfl, hb2, hpe2, hmem2⟩
       | false =>
         -- any other instruction: MVP-4's issue logic
@@ -359,11 +369,13 @@ theorem euStep5_sim {app : App} {s : State} {a : Arch} {eu : ExecUnit} {r : Runn
         rw [hbr] at h
         obtain ⟨b, hb4, rfl⟩ := map_lift_ok h
         have hbb : Back ({ s.base with bu := bu0 } : Model.Mvp4.State) a := hb
+        have hexec := euIssue_exec hb4
+        have hproc' : ({ eu with remainingCycles := eu.remainingCycles - 1, runner := some r' } : ExecUnit).processing = true := hproc
         rcases euIssue_sim (s := { s.base with bu := bu0 })
           (eu := { eu with remainingCycles := eu.remainingCycles - 1, runner := some r' })
           hbb hsid hpe hm hpc hi hnf hca hok hb4 with ⟨rfl, hst⟩ | ⟨hfr, hpost⟩
         · refine ⟨hst.wu, hst.mode, hst.cycles, ?_, fun _ => ⟨by show b.fu.processing = _; rw [hst.fu], by show b.fu.remainingCycles = _; rw [hst.fu], hst.decodeBus,
-            Or.inl ⟨rfl, Or.inl (by show b.fu.pc = _; rw [hst.fu])⟩⟩, Or.inl ⟨hst.back, ?_, ?_⟩⟩
+            Or.inl ⟨rfl, Or.inl (by show b.fu.pc = _; rw [hst.fu])⟩⟩, Or.inl ⟨hst.back, ?_, ?_, ?_⟩⟩
           · exact euIssue_l1i (s := { s.base with bu := bu0 }) hb4
           · refine hn.transfer ?_ (tailW_congr rfl rfl hst.decodeBus hst.fu) rfl
               (by show b.fu.complete = true → _; rw [hst.fu]; exact hn.complete)
@@ -380,6 +392,10 @@ theorem euStep5_sim {app : App} {s : State} {a : Arch} {eu : ExecUnit} {r : Runn
             rcases hst.meas with ⟨m1, m2, m3⟩ | m
             · exact Or.inr (Or.inl ⟨m1, m2, h0', m3⟩)
             · exact Or.inr (Or.inr m)
+          · show b.executed = s.base.executed
+            rcases hexec with ⟨e1, _⟩ | ⟨_, e2⟩
+            · exact e1
+            · have := e2 rfl; rw [hst.processing, hproc'] at this; cases this
         · refine ⟨hfr.wu, hfr.mode, hfr.cycles, euIssue_l1i (s := { s.base with bu := bu0 }) hb4,
             fun _ => ⟨by show b.fu.processing = _; rw [hfr.fu], by show b.fu.remainingCycles = _; rw [hfr.fu], hfr.decodeBus,
               Or.inl ⟨rfl, Or.inl (by show b.fu.pc = _; rw [hfr.fu])⟩⟩, ?_⟩
@@ -390,7 +406,11 @@ theorem euStep5_sim {app : App} {s : State} {a : Arch} {eu : ExecUnit} {r : Runn
             obtain ⟨a', c, hst, hapc, hb2, hproc2⟩ := hpost
             have hpe2 : b.eu.pendingMemoryRead = false := by rw [hfr.pend]; exact hpe
             have hm2 : b.eu.memory = none := by rw [hfr.mem]; exact hm
-            refine Or.inr ⟨a', c, hst, hb2, ?_, hproc2, hpe2⟩
+            have hex1 : b.executed = s.base.executed + 1 := by
+              rcases hexec with ⟨_, e1, _⟩ | ⟨e2, _⟩
+              · rw [hproc2, hproc'] at e1; cases e1
+              · exact e2
+            refine Or.inr ⟨a', c, hst, hb2, ?_, hproc2, hpe2, hex1⟩
             refine hn.advance r' ?_ hj hapc (tailW_congr rfl rfl hfr.decodeBus hfr.fu) rfl
               (by show b.fu.complete = true → _; rw [hfr.fu]; exact hn.complete) hproc2 hpe2 hm2
             rw [hR']
@@ -412,7 +432,7 @@ theorem euStep5_sim {app : App} {s : State} {a : Arch} {eu : ExecUnit} {r : Runn
           unfold SimpleBus.canAdd at hca'
           simp only [Bool.and_eq_true] at he
           rw [he.1] at hca'; cases hca'
-      refine ⟨rfl, rfl, rfl, rfl, fun _ => ⟨rfl, rfl, rfl, Or.inl ⟨rfl, Or.inl rfl⟩⟩, Or.inl ⟨hb.with_eu_bu _ _ hsid, ?_, fun _ => ⟨rfl, rfl, rfl, hproc, Or.inr (Or.inl ⟨hpe, rfl, h0', hne⟩)⟩⟩⟩
+      refine ⟨rfl, rfl, rfl, rfl, fun _ => ⟨rfl, rfl, rfl, Or.inl ⟨rfl, Or.inl rfl⟩⟩, Or.inl ⟨hb.with_eu_bu _ _ hsid, ?_, fun _ => ⟨rfl, rfl, rfl, hproc, Or.inr (Or.inl ⟨hpe, rfl, h0', hne⟩)⟩, rfl⟩⟩
       refine hn.transfer ?_ rfl rfl hn.complete (fun _ => ⟨r', hrun⟩) (fun hx => by rw [hproc] at hx; cases hx)
         (fun hx => by rw [hpe] at hx; cases hx) (fun _ => hm)
       rw [hR']; exact runners_busy hproc hrun
@@ -501,7 +521,7 @@ theorem executeCycle5_sim {app : App} {s : State} {a : Arch} {s2 : State} {out :
       injection h with h
       simp only [Prod.mk.injEq] at h
       obtain ⟨rfl, rfl⟩ := h
-      refine ⟨rfl, rfl, rfl, rfl, fun _ => ⟨rfl, rfl, rfl, Or.inl ⟨rfl, Or.inl rfl⟩⟩, Or.inl ⟨hb.with_eu_bu _ _ rfl, ?_, ?_⟩⟩
+      refine ⟨rfl, rfl, rfl, rfl, fun _ => ⟨rfl, rfl, rfl, Or.inl ⟨rfl, Or.inl rfl⟩⟩, Or.inl ⟨hb.with_eu_bu _ _ rfl, ?_, ?_, rfl⟩⟩
       · refine hn.transfer ?_ rfl rfl hn.complete (fun _ => ⟨r', hrun⟩) (fun hx => by simp only [hproc] at hx; cases hx)
           (fun _ => ⟨r', hrun, hnj, ⟨hpo.wbFree, hpo.noWriter, hpo.bu, hpo.memHit, hpo.memMiss⟩⟩) (fun hx => by simp at hx)
         rw [hR]; exact runners_busy hproc hrun
@@ -533,7 +553,7 @@ theorem executeCycle5_sim {app : App} {s : State} {a : Arch} {s2 : State} {out :
         obtain ⟨a', c, hst, hapc, hb2, hproc2⟩ := hpost
         have hpe2 : b.eu.pendingMemoryRead = false := by rw [hfr.pend]; exact hpe1
         have hm2 : b.eu.memory = none := by rw [hfr.mem]; exact hm1
-        refine Or.inr ⟨a', c, hst, hb2, ?_, hproc2, hpe2⟩
+        refine Or.inr ⟨a', c, hst, hb2, ?_, hproc2, hpe2, euMemDone_exec hb4⟩
         refine hn.advance r' ?_ hnj hapc (tailW_congr rfl rfl (by show b.decodeBus = _; rw [hfr.decodeBus, h2]) (by show b.fu = _; rw [hfr.fu, h1])) rfl
           (by show b.fu.complete = true → _; rw [hfr.fu, h1]; exact hn.complete) hproc2 hpe2 hm2
         rw [hR]
@@ -556,8 +576,8 @@ theorem executeCycle5_sim {app : App} {s : State} {a : Arch} {s2 : State} {out :
       refine ⟨h1, h2, h3, h4, hfb, ?_⟩
       cases out with
       | none =>
-        rcases hpost with ⟨e1, e2, e3⟩ | hstep
-        · refine Or.inl ⟨e1, e2, fun hlive => stut5_of_euStut (s := s) (s' := s) (e3 (hlive.1 hproc)) rfl rfl rfl (hlive.1 hproc) ?_⟩
+        rcases hpost with ⟨e1, e2, e3, e4⟩ | hstep
+        · refine Or.inl ⟨e1, e2, fun hlive => stut5_of_euStut (s := s) (s' := s) (e3 (hlive.1 hproc)) rfl rfl rfl (hlive.1 hproc) ?_, e4⟩
           intro fw
           unfold euPart; simp only [hp', hproc, Bool.false_eq_true, if_false, if_true]; exact Nat.le_refl _
         · exact Or.inr hstep
@@ -575,7 +595,7 @@ theorem executeCycle5_sim {app : App} {s : State} {a : Arch} {s2 : State} {out :
         injection h with h
         simp only [Prod.mk.injEq] at h
         obtain ⟨rfl, rfl⟩ := h
-        refine ⟨rfl, rfl, rfl, rfl, fun _ => ⟨rfl, rfl, rfl, Or.inl ⟨rfl, Or.inl rfl⟩⟩, Or.inl ⟨hb, ?_, ?_⟩⟩
+        refine ⟨rfl, rfl, rfl, rfl, fun _ => ⟨rfl, rfl, rfl, Or.inl ⟨rfl, Or.inl rfl⟩⟩, Or.inl ⟨hb, ?_, ?_, rfl⟩⟩
         · refine hn.transfer ?_ rfl rfl hn.complete (fun hx' => by simp only [hproc'] at hx'; cases hx')
             (fun _ => hp') (fun hx' => by simp only [hp'] at hx'; cases hx') (fun _ => hnomem)
           rw [hRi]
@@ -611,9 +631,9 @@ theorem executeCycle5_sim {app : App} {s : State} {a : Arch} {s2 : State} {out :
           refine ⟨h1, h2, h3, h4, hfb, ?_⟩
           cases out with
           | none =>
-            rcases hpost with ⟨e1, e2, e3⟩ | hstep
+            rcases hpost with ⟨e1, e2, e3, e4⟩ | hstep
             · refine Or.inl ⟨e1, e2, fun _ => stut5_of_euStut (s := s)
-                (s' := { s with base := { s.base with executeBus := s.base.executeBus.get.2 } }) (e3 hc1) rfl rfl rfl hc1 ?_⟩
+                (s' := { s with base := { s.base with executeBus := s.base.executeBus.get.2 } }) (e3 hc1) rfl rfl rfl hc1 ?_, e4⟩
               intro fw
               unfold euPart; simp only [hp', hproc', Bool.false_eq_true, if_false]
               show 400 + c.toNat ≤ _
